@@ -103,8 +103,10 @@ def run_property(prop, tier, seed, root=None, write_evidence=True, quiet=False, 
         demote_rewritten(r)
     except AnalysisBroken as e:
         demote_rewritten(r)
-        # a genuine violation found before the analyser lost its footing takes precedence
-        if not r.rep.failed():
+        # a genuine (not already listed) violation found before the analyser lost its footing takes precedence
+        from .report import load_known
+        known_keys = {k["key"] for k in load_known().get("known", []) if k.get("property") == prop}
+        if not [o for o in r.rep.failed() if o.finding_key(prop) not in known_keys]:
             raise
         r.rep.notes.append(f"analysis stopped early: {e}")
     base_failed = bool(r.rep.failed())
